@@ -158,6 +158,24 @@ func c09Exec(run *ev.Run, c ev.Case) {
 			// calls made with a context that is already finished, between ordinary commands
 			kinds := []string{"devid", "authcaps", "chassis", "raw", "sl-guid", "sl-authcaps"}
 			idx := 0
+			// one command retransmitted several hundred times (a BMC that stays busy, a zero back-off)
+			for _, n := range []int{254, 255, 256, 257, 300, 520} {
+				long := make([]string, n)
+				for i := range long {
+					long[i] = []string{"busy", "tmo", "garbage:noise", "badsig"}[(i+n)%4]
+				}
+				c09History(run, c09Hist{Suite: n, Cmds: []c09Cmd{{Kind: "devid"}, {Kind: "chassis", Script: long}, {Kind: "devid"}, {Kind: "raw", Script: []string{"busy"}}}})
+			}
+			// a Close that succeeds, after which the caller (wrongly, but possibly) keeps using the
+			// session value: whatever is sent is still sent as this session, with the next numbers
+			for n := 0; n <= 2; n++ {
+				var cmds []c09Cmd
+				for i := 0; i <= n; i++ {
+					cmds = append(cmds, c09Cmd{Kind: kinds[i%4]})
+				}
+				cmds = append(cmds, c09Cmd{Kind: "close-ok"}, c09Cmd{Kind: "close-ok"}, c09Cmd{Kind: "devid"}, c09Cmd{Kind: "chassis", Script: []string{"busy"}})
+				c09History(run, c09Hist{Suite: n + 3, Cmds: cmds})
+			}
 			for _, cl := range []c09Cmd{{Kind: "close-lost", Script: []string{"lost"}}, {Kind: "close-refused", Script: []string{"cc:87"}}, {Kind: "close", Expired: true}, {Kind: "close-lost", Script: []string{"busy", "lost"}}} {
 				for n := 0; n <= 2; n++ {
 					var cmds []c09Cmd
@@ -275,7 +293,7 @@ func c09Call(kind string, sess *bmc.V2Session, st *bmc.V2SessionlessTransport) (
 		}
 		cmd := &RawCmd{Op: ipmi.Operation{Function: ipmi.NetworkFunctionAppReq, Command: 0x43}, Req: body}
 		return func(ctx context.Context) (ipmi.CompletionCode, error) { return sess.SendCommand(ctx, cmd) }, []byte{0xaa, 0xbb}, 0
-	case "close-lost", "close-refused", "close":
+	case "close-lost", "close-refused", "close", "close-ok":
 		// Close Session that does not succeed (reply lost / refused by the BMC / made with a
 		// finished context): the session lives on and so does its numbering
 		return func(ctx context.Context) (ipmi.CompletionCode, error) { return 0, sess.Close(ctx) }, nil, 0
